@@ -14,7 +14,7 @@ import (
 )
 
 func (e *Engine) dummyExec() *Exec {
-	return &Exec{E: e, wrote: map[string]bool{}, entryHeap: map[string]*smt.Term{}, epoch: "ax", counters: map[string]int{}}
+	return &Exec{E: e, wrote: map[string]bool{}, entryHeap: map[string]*smt.Term{}, epoch: "0", counters: map[string]int{}}
 }
 
 // AxiomTerms evaluates the `axiom` clauses of all contract files (assumptions, reported in the evidence).
@@ -277,10 +277,102 @@ func AxiomSymbols(t *smt.Term) map[string]bool {
 		if u.Op == "app" {
 			out[u.Name] = true
 		}
+		if u.Op == "var" && strings.HasPrefix(u.Name, "GL$") {
+			out[u.Name] = true
+		}
 		for _, a := range u.Args {
 			walk(a)
 		}
 	}
 	walk(t)
 	return out
+}
+
+// lemmaInstance evaluates a lemma body with its parameters bound to the given values.
+func (x *Exec) lemmaInstance(env *SpecEnv, l *LemmaInfo, args []SVal) *smt.Term {
+	ne := *env
+	ne.Vars = map[string]SVal{}
+	ne.Results = nil
+	ne.Bound = map[string]SVal{}
+	ne.CalleeView = true
+	ne.Pkg = l.Pkg
+	for i, p := range l.Params {
+		ne.Vars[p.Name] = args[i]
+	}
+	return x.evalBool(&ne, l.Body)
+}
+
+// LemmaObligations: each named lemma is proved once for arbitrary parameter values; with `induction v from lo`
+// the induction hypothesis (the lemma for every v' with lo <= v' < v, other parameters fixed) is available.
+func (e *Engine) LemmaObligations(want map[string]bool) ([]*Obligation, error) {
+	var out []*Obligation
+	var names []string
+	for n := range e.Lemmas {
+		names = append(names, n)
+	}
+	sort.Strings(names)
+	x := e.dummyExec()
+	for _, n := range names {
+		l := e.Lemmas[n]
+		if !hasProp(l.Props, want) {
+			continue
+		}
+		st := &State{heap: map[string]*smt.Term{}, cells: map[*ssa.Alloc]Val{}, env: map[ssa.Value]Val{}}
+		env := &SpecEnv{X: x, S: st, Vars: map[string]SVal{}, Pkg: l.Pkg, CalleeView: true, Old: map[string]*smt.Term{}}
+		var args []SVal
+		indIdx := -1
+		for i, p := range l.Params {
+			srt, gt, err := e.resolveType(l.Pkg, p.Type)
+			if err != nil {
+				return nil, fmt.Errorf("%s:%d: lemma %s: %v", l.File, l.Line, n, err)
+			}
+			args = append(args, SVal{T: smt.Fresh("lem$"+p.Name, srt), GT: gt})
+			if p.Name == l.Induct {
+				indIdx = i
+			}
+		}
+		goal, err := safeEval(func() *smt.Term { return x.lemmaInstance(env, l, args) })
+		if err != nil {
+			return nil, fmt.Errorf("%s:%d: lemma %s: %v", l.File, l.Line, n, err)
+		}
+		var hyps []*smt.Term
+		if l.Induct != "" {
+			if indIdx < 0 {
+				return nil, fmt.Errorf("%s:%d: lemma %s: induction variable %s is not a parameter", l.File, l.Line, n, l.Induct)
+			}
+			lo := x.eval(env, l.From).T
+			v := args[indIdx].T
+			bv := smt.Var(smt.FreshName("ih$"+l.Induct), smt.Int)
+			ihArgs := append([]SVal{}, args...)
+			ihArgs[indIdx] = SVal{T: bv, GT: args[indIdx].GT}
+			ihBody, err := safeEval(func() *smt.Term { return x.lemmaInstance(env, l, ihArgs) })
+			if err != nil {
+				return nil, err
+			}
+			// well-founded on [lo, oo): the hypothesis is only available for lo <= v' < v, and only when v >= lo
+			ih := smt.Forall([]*smt.Term{bv}, smt.Implies(smt.And(smt.Le(lo, bv), smt.Lt(bv, v)), ihBody))
+			hyps = append(hyps, smt.Implies(smt.Le(lo, v), ih))
+			// ground instance at v-1, the one almost every proof needs
+			prevArgs := append([]SVal{}, args...)
+			prevArgs[indIdx] = SVal{T: smt.Sub(v, smt.IntC(1)), GT: args[indIdx].GT}
+			if pb, err := safeEval(func() *smt.Term { return x.lemmaInstance(env, l, prevArgs) }); err == nil {
+				hyps = append(hyps, smt.Implies(smt.Le(lo, smt.Sub(v, smt.IntC(1))), pb))
+			}
+		}
+		out = append(out, &Obligation{Name: "lemma#" + n, Func: "lemma " + n, Kind: "lemma", Props: l.Props, Hyps: hyps, Goal: goal, Src: l.Src})
+	}
+	return out, nil
+}
+
+func safeEval(f func() *smt.Term) (t *smt.Term, err error) {
+	defer func() {
+		if r := recover(); r != nil {
+			if os, ok := r.(outsideSubset); ok {
+				err = fmt.Errorf("%s", string(os))
+				return
+			}
+			panic(r)
+		}
+	}()
+	return f(), nil
 }
